@@ -955,7 +955,8 @@ fn fraction(n: int)->Fraction{
 
 fn fraction(n: int, d: int)->Fraction{
     let g = gcd(n, d);
-    Fraction(trunc((n/g)/sign(d)), trunc(abs(d)/g))
+    if(d == 0, error("fraction denominator cannot be zero"),
+        Fraction(n.div_floor(g)*sign(d), abs(d).div_floor(g)))
 }
 
 fn fraction(f: float)->Fraction{
